@@ -602,6 +602,8 @@ def check_token(case, ctx):
         ctx.note(case, nontriv, classes=sorted(classes))
 
 
+_dialects()  # import all dialect modules at module import (outside the per-sub time budget)
+
 # ---------------------------------------------------------------- strategies
 _str_val = st.fixed_dictionaries({"t": st.just("str"), "a": st.lists(st.integers(0, len(ATOMS) - 1), min_size=0, max_size=8), "u": st.booleans()})
 _int_val = st.fixed_dictionaries({"t": st.just("int"), "v": st.one_of(st.sampled_from(INT_SPECIAL), st.integers(-(2**63), 2**63 - 1), st.integers(-1000, 1000))})
